@@ -11,10 +11,40 @@
     exactly `getTreeNumElements` elements (C08_buffer_size), parcpy touches exactly `size` elements (C17_parcpy).
   Not expressible in these models: uninitialised reads, alignment, signed-overflow / shift UB inside the C++ (D12),
   stack VLAs; see DESIGN.md §C18.
+
+  THE GENERATED HEAP MODEL (second half of this file, theorems `C18_generated_*`).  The whole NTT source is translated on
+  every run into Gen/NttGen.lean (heap mode: `Heap.alloc` for malloc / new[] / run-time sized stack arrays, `Heap.free`
+  for free / delete[] / scope end, `Heap.get/set/copy/zero` for the accesses), so statements about ITS heap are re-checked
+  against what the code says now:
+  * ALLOCATION BALANCE (Lemmas/HeapSafe.lean, HeapSafeBal.lean, HeapSafeOwn.lean).  `Heap.ext h b` = addressable words of
+    block b (0 = NULL / released / never allocated), `Heap.live h b` = `0 < ext`.  For EVERY argument value:
+    `NTT`, `INTT`, `NTT_iters`, `reversePermutation` return a heap with the same number of blocks and the same extent of
+    every block (`C18_generated_NTT_alloc_balance`, …); the constructor allocates exactly the two tables it stores
+    (`…_ctor_allocates_tables`); the destructor releases exactly the blocks the object owns (`…_dtor_frees_owned`);
+    `extendPol` changes only the cache blocks, releases the replaced ones (`…_extendPol_alloc_balance`); for every history
+    constructor → calls → destructor the live blocks at the end are the live blocks at the start
+    (`C18_generated_alloc_balance`).
+    NOT expressible there: `free` versus `delete[]` (both are `Heap.free`: the family of a block stays with
+    `C18_alloc_discipline` + the recorded allocator calls); a block of zero words is not distinguished from a released
+    one; releasing a block that is already dead is a no-op of the model (the balance statements do not see a double
+    release — the `FreeOK` conditions of the in-bounds part do).
+  * IN-BOUNDS ACCESSES (Lemmas/HeapSafeVC.lean ff.).  `Heap.get` outside a block gives 0 and `Heap.set` outside is dropped,
+    which HIDES an overrun.  `derive_safe f` (a command, Lemmas/HeapSafeVC.lean) computes from the generated DEFINITION of
+    `f` the proposition `f.Safe args` = "every get / set is inside its block, every memcpy / memset range is inside its
+    block and memcpy ranges do not overlap, every free gets NULL or the start of a live block", along all paths, loops
+    and callees (Lemmas/HeapSafeDefs.lean: nothing hand-written).  Proved under the documented extents: `reversePermutation`
+    (all four branches), one batch of butterflies, `NTT_iters` (any `nphase`), `NTT` and `INTT` (ANY `nblock`, with or
+    without caller buffer, in place or not), the destructor, and constructor + `NTT` without any hypothesis about the object
+    (`C18_generated_inbounds_*`).  NOT proved: `.Safe` of the constructor's own table-filling loops, of `computeR` and of
+    `extendPol` (their predicates exist: `NTT_ctor.Safe`, `NTT_computeR.Safe`, `NTT_extendPol.Safe`), size 1 (`parcpy` path),
+    log2 n > 30; pointer arithmetic that leaves a block without an access (`&buffer[k]` alone) is not a condition.
 -/
 import GoldilocksVerif.Lemmas.NttAllocL
 import GoldilocksVerif.Props.C17
 import GoldilocksVerif.Props.C08
+import GoldilocksVerif.Lemmas.HeapSafeOwn
+import GoldilocksVerif.Lemmas.HeapSafeCtor
+import GoldilocksVerif.Lemmas.HeapSafeDtor
 
 namespace GoldilocksVerif.C18
 open GoldilocksVerif GoldilocksVerif.NttAlloc
@@ -98,5 +128,186 @@ theorem C18_wrappers_frame (res c : Region) (pos : Nat → Nat) (v : Nat → Bit
 theorem C18_parcpy_extent (dst src : Region) (size : Nat) (nt : Int) (j : Nat) (hj : size ≤ j) :
     (ParCopy.parcpy dst src size nt) j = dst j := by
   rw [C17.C17_parcpy_seq, if_neg (by omega)]
+
+/-! ## The GENERATED heap model (Gen/NttGen.lean, re-translated from ntt_goldilocks.cpp/.hpp on every run)
+
+`Heap.ext h b` = number of addressable words of block `b` (0 = NULL / released / never allocated), `Heap.live h b` =
+`0 < Heap.ext h b` (Lemmas/HeapSafe.lean).  The statements hold for EVERY value of every argument (pointers, sizes,
+column and block counts, fuel) whenever the generated function returns; the only hypothesis is that the heap has its
+NULL block (`0 < hp.size`, otherwise `Heap.alloc` would hand out NULL). -/
+section generated
+open Gen.NttGen GoldilocksVerif.HeapSafe
+
+/-- `NTT` (any `nblock`, with or without caller buffer, forward or inverse): same number of blocks, every block has the
+    extent it had — `aux` and the block destination `dst_` are released, the row temporaries of `reversePermutation` are
+    released in every iteration, nothing else is released -/
+theorem C18_generated_NTT_alloc_balance (fuel : Nat) (hp hp' : Heap) (self : NTT_Goldilocks) (dst src : Ptr)
+    (size ncols : BitVec 64) (buffer : Ptr) (nphase nblock : BitVec 64) (inverse extend : Bool) (hs : 0 < hp.size)
+    (h : NTT_NTT fuel hp self dst src size ncols buffer nphase nblock inverse extend = some hp') :
+    hp'.size = hp.size ∧ ∀ b, hp'.ext b = hp.ext b :=
+  NTT_same fuel hp self dst src size ncols buffer nphase nblock inverse extend hs hp' h
+
+theorem C18_generated_INTT_alloc_balance (fuel : Nat) (hp hp' : Heap) (self : NTT_Goldilocks) (dst src : Ptr)
+    (size ncols : BitVec 64) (buffer : Ptr) (nphase nblock : BitVec 64) (extend : Bool) (hs : 0 < hp.size)
+    (h : NTT_INTT fuel hp self dst src size ncols buffer nphase nblock extend = some hp') :
+    hp'.size = hp.size ∧ ∀ b, hp'.ext b = hp.ext b :=
+  INTT_same fuel hp self dst src size ncols buffer nphase nblock extend hs hp' h
+
+/-- the pieces: `reversePermutation` (all four branches) and `NTT_iters` -/
+theorem C18_generated_reversePermutation_alloc_balance (fuel : Nat) (hp hp' : Heap) (self : NTT_Goldilocks) (dst src : Ptr)
+    (size offset_cols ncols ncols_all : BitVec 64) (hs : 0 < hp.size)
+    (h : NTT_reversePermutation fuel hp self dst src size offset_cols ncols ncols_all = some hp') :
+    hp'.size = hp.size ∧ ∀ b, hp'.ext b = hp.ext b :=
+  reversePermutation_same fuel hp self dst src size offset_cols ncols ncols_all hs hp' h
+
+theorem C18_generated_NTT_iters_alloc_balance (fuel : Nat) (hp hp' : Heap) (self : NTT_Goldilocks) (dst src : Ptr)
+    (size offset_cols ncols ncols_all nphase : BitVec 64) (aux : Ptr) (inverse extend : Bool) (hs : 0 < hp.size)
+    (h : NTT_NTT_iters fuel hp self dst src size offset_cols ncols ncols_all nphase aux inverse extend = some hp') :
+    hp'.size = hp.size ∧ ∀ b, hp'.ext b = hp.ext b :=
+  NTT_iters_same fuel hp self dst src size offset_cols ncols ncols_all nphase aux inverse extend hs hp' h
+
+/-- the constructor allocates exactly the two tables it stores in the object (none for `maxDomainSize == 0`): they are the
+    two new last blocks, every other block keeps its extent, the cache pointers are NULL, `s != 0` (so the destructor will
+    release the tables) -/
+theorem C18_generated_ctor_allocates_tables (fuel : Nat) (hp hp' : Heap) (self self' : NTT_Goldilocks) (m : BitVec 64)
+    (thr : BitVec 32) (e : Int) (h : NTT_ctor fuel hp self m thr e = some (hp', self')) :
+    self'.r = Ptr.null ∧ self'.r_ = Ptr.null ∧
+    ((m = 0#64 ∧ hp' = hp ∧ self'.s = self.s) ∨
+     (m ≠ 0#64 ∧ self'.s ≠ 0#32 ∧ self'.roots = ⟨hp.size, 0⟩ ∧ self'.powTwoInv = ⟨hp.size + 1, 0⟩ ∧ hp'.size = hp.size + 2 ∧
+      ∃ n1 n2, ∀ b, hp'.ext b = if b = hp.size then n1 else if b = hp.size + 1 then n2 else hp.ext b)) := by
+  have hpost := ctor_shape fuel hp self m thr e (hp', self') h
+  rcases hpost with ⟨e0, e1, e2, e3, e4⟩ | ⟨e0, hinv, n1, n2, e1, e2, hsame⟩
+  · exact ⟨e3, e4, Or.inl ⟨e0, e1, e2⟩⟩
+  · refine ⟨hinv.2.1, hinv.2.2, Or.inr ⟨e0, hinv.1, e1, ?_, ?_, n1, n2, fun b => ?_⟩⟩
+    · rw [e2, Heap.alloc_snd, Heap.size_alloc]
+    · rw [hsame.1, Heap.size_alloc, Heap.size_alloc]
+    · rw [hsame.2 b, Heap.ext_alloc, Heap.ext_alloc, Heap.size_alloc]
+      by_cases h1 : b = hp.size
+      · rw [if_pos h1, if_neg (by omega), if_pos h1]
+      · rw [if_neg h1, if_neg h1]
+
+/-- the destructor releases exactly the blocks the object owns (`roots`, `powTwoInv` when `s != 0`; `r`, `r_` when not NULL) -/
+theorem C18_generated_dtor_frees_owned (hp : Heap) (self : NTT_Goldilocks) (hs : 0 < hp.size) (b : Nat) :
+    (Owned self b → (NTT_dtor hp self).ext b = 0) ∧ (¬ Owned self b → (NTT_dtor hp self).ext b = hp.ext b) := by
+  classical
+  have f : Fr (fun b => if Owned self b then 0 else hp.ext b) (Owned self) hp :=
+    ⟨hs, fun b hb => if_pos hb, fun b hb => (if_neg hb).symm⟩
+  have fd := dtor_own self f (fun b hb => if_pos hb)
+  have := Fr.done (fd.iff (fun b => ⟨fun x => x.elim, fun x => x.2 x.1⟩)) b
+  exact ⟨fun ho => by rw [this, if_pos ho], fun ho => by rw [this, if_neg ho]⟩
+
+/-- `extendPol` (any arguments, with or without caller buffer, every state of the cache): the local transform object's
+    tables and the scratch buffer are allocated and released; of the object only the cache `r`, `r_` may change;
+    every block that is neither an old nor a new cache block keeps its extent; an old cache block that is not a new one is
+    released; a new cache block that is not an old one was not live before -/
+theorem C18_generated_extendPol_alloc_balance (fuel : Nat) (hp hp' : Heap) (self self' : NTT_Goldilocks) (output input : Ptr)
+    (N_Extended N ncols : BitVec 64) (buffer : Ptr) (nphase nblock : BitVec 64) (hs : 0 < hp.size)
+    (hc : self.r = Ptr.null → self.r_ = Ptr.null)
+    (h : NTT_extendPol fuel hp self output input N_Extended N ncols buffer nphase nblock = some (hp', self')) :
+    self'.s = self.s ∧ self'.roots = self.roots ∧ self'.powTwoInv = self.powTwoInv ∧ (self'.r = Ptr.null → self'.r_ = Ptr.null) ∧
+    (∀ b, ¬ Cache self b → ¬ Cache self' b → hp'.ext b = hp.ext b) ∧
+    (∀ b, Cache self b → ¬ Cache self' b → hp'.ext b = 0) ∧
+    (∀ b, Cache self' b → ¬ Cache self b → hp.ext b = 0) := by
+  classical
+  have f : Fr (fun b => if Cache self b then 0 else hp.ext b) (fun b => False ∨ Cache self b) hp :=
+    ⟨hs, fun b hb => if_pos (hb.resolve_left id), fun b hb => (if_neg (fun x => hb (Or.inr x))).symm⟩
+  obtain ⟨f', hc', e1, e2, e3⟩ := extendPol_own fuel hp self output input N_Extended N ncols buffer nphase nblock f hc (hp', self') h
+  refine ⟨e1, e2, e3, hc', fun b h1 h2 => ?_, fun b h1 h2 => ?_, fun b h1 h2 => ?_⟩
+  · have := f'.frame b (fun x => h2 (x.resolve_left id))
+    rw [this, if_neg h1]
+  · have := f'.frame b (fun x => h2 (x.resolve_left id))
+    rw [this, if_pos h1]
+  · have := f'.dead b (Or.inr h1)
+    rw [if_neg h2] at this
+    exact this
+
+/-- ALLOCATION BALANCE OF THE GENERATED MODEL.  For every constructor argument and every list of `NTT` / `INTT` /
+    `extendPol` calls with any arguments: generated constructor on the default-initialised members, the calls, generated
+    destructor — when the history returns, every block of the heap has the extent it had at the start: the set of live
+    blocks at the end equals the set at the start (every allocated block was released, nothing else was released) -/
+theorem C18_generated_alloc_balance (fuel : Nat) (h0 h' : Heap) (maxDomainSize : BitVec 64) (nThreads : BitVec 32)
+    (extension : Int) (cs : List HeapSafe.Call) (hs : 0 < h0.size) (h : life fuel h0 maxDomainSize nThreads extension cs = some h') :
+    (∀ b, h'.ext b = h0.ext b) ∧ (∀ b, Heap.live h' b ↔ Heap.live h0 b) := by
+  have := life_balance fuel h0 maxDomainSize nThreads extension cs hs h' h
+  exact ⟨this, fun b => by unfold Heap.live; rw [this b]⟩
+
+/-! ### in-bounds accesses: the predicates `f.Safe` are derived from the generated definitions (`derive_safe`) -/
+
+/-- `reversePermutation`, all four branches (destination distinct / in place × extension ≤ 1 / > 1): every `memcpy` /
+    `memset` range is inside the destination (size rows of ncols words), the source (the first `srcRows` rows of ncols_all
+    words: all of them, or size / extension) or the row temporary; source and destination of a `memcpy` do not overlap; the
+    temporary is released while live -/
+theorem C18_generated_inbounds_reversePermutation (fuel : Nat) (hf : 64 ≤ fuel) (hp : Heap) (self : NTT_Goldilocks)
+    (dst src : Ptr) (size offset_cols ncols ncols_all : BitVec 64) (k : Nat) (hs : 0 < hp.size)
+    (sh : RPShape hp self dst src size offset_cols ncols ncols_all k) :
+    NTT_reversePermutation.Safe fuel hp self dst src size offset_cols ncols ncols_all :=
+  reversePermutation_safe fuel hf hp self dst src size offset_cols ncols ncols_all k hs sh
+
+/-- one batch of one pass (the body of the OpenMP batch loop): all butterfly stages of the batch — rows
+    `b·2^sInc + …` of `a`, twiddle factors `roots[j << (s − stage)]` — and the copy into the other buffer (transposing, or
+    reflecting and scaling with `r_[dsty]` / `powTwoInv[domainPow]`) -/
+theorem C18_generated_inbounds_butterfly_batch (st : Heap) (self : NTT_Goldilocks) (a a2 : Ptr)
+    (N NC K MBP S sInc nB b : Nat) (inverse extend : Bool) (sh : IShape st self a a2 N NC K extend) (hS1 : 1 ≤ S) (hSK : S ≤ K)
+    (hSI : S + sInc ≤ K + 1) (hnB : nB = N / 2 ^ sInc) (hb : b < nB) :
+    NTT_NTT_iters_loop9.Safe (BridgeNtt.bv N) (BridgeNtt.bv NC) inverse extend self a a2 (BridgeNtt.bv K) (BridgeNtt.bv MBP)
+      (BridgeNtt.bv S) (BridgeNtt.bv sInc) (BridgeNtt.bv (S - 1)) (BridgeNtt.bv (K - 1)) (BridgeNtt.bv (2 ^ (S - 1)))
+      (BridgeNtt.bv (2 ^ (K - S) - 1)) (BridgeNtt.bv (2 ^ sInc)) (BridgeNtt.bv nB) b st :=
+  passBatch_safe st self a a2 N NC K MBP S sInc nB b inverse extend sh hS1 hSK hSI hnB hb
+
+/-- `NTT_iters` (2 ≤ size = 2^K ≤ 2^30, any `nphase`, forward / inverse / extend): `reversePermutation` into the buffer the
+    parity of the phase count selects and every access of every pass of the ping-pong between destination and `aux` -/
+theorem C18_generated_inbounds_NTT_iters (fuel : Nat) (hf : 64 ≤ fuel) (hp : Heap) (self : NTT_Goldilocks) (dst src aux : Ptr)
+    (N NC K : Nat) (offset_cols ncols_all nphase : BitVec 64) (inverse extend : Bool) (hK1 : 1 ≤ K) (hs : 0 < hp.size)
+    (sh : IShape hp self (if (dst != Ptr.null) = true then dst else src) aux N NC K extend)
+    (hNC : 0 < NC) (hcols : offset_cols.toNat + NC ≤ ncols_all.toNat) (hbytes : N * ncols_all.toNat * 8 < 2 ^ 64)
+    (hsrc : src.off + srcRows self (BridgeNtt.bv N) * ncols_all.toNat ≤ hp.ext src.blk)
+    (hd1 : (if (dst != Ptr.null) = true then dst else src) ≠ src →
+      (if (dst != Ptr.null) = true then dst else src).blk ≠ src.blk)
+    (hd2 : aux.blk ≠ src.blk) :
+    NTT_NTT_iters.Safe fuel hp self dst src (BridgeNtt.bv N) offset_cols (BridgeNtt.bv NC) ncols_all nphase aux inverse extend :=
+  NTT_iters_safe fuel hf hp self dst src aux N NC K offset_cols ncols_all nphase inverse extend hK1 hs sh hNC hcols hbytes hsrc
+    hd1 hd2
+
+/-- **`NTT`** on buffers of the documented extents (`NTTShape`: destination and caller buffer of size·ncols words, source
+    of srcRows·ncols words, the constructor's tables), for EVERY `nblock`, with or without caller buffer, in place or
+    not: every access of the call tree (scratch allocation, block loop, `NTT_iters`, scatter, the two `free`s) is in bounds -/
+theorem C18_generated_inbounds_NTT (fuel : Nat) (hf : 64 ≤ fuel) (hp : Heap) (self : NTT_Goldilocks) (dst src buffer : Ptr)
+    (N NC K : Nat) (nphase nblock : BitVec 64) (inverse extend : Bool) (sh : NTTShape hp self dst src buffer N NC K extend) :
+    NTT_NTT.Safe fuel hp self dst src (BridgeNtt.bv N) (BridgeNtt.bv NC) buffer nphase nblock inverse extend :=
+  NTT_safe fuel hf hp self dst src buffer N NC K nphase nblock inverse extend sh
+
+theorem C18_generated_inbounds_INTT (fuel : Nat) (hf : 64 ≤ fuel) (hp : Heap) (self : NTT_Goldilocks) (dst src buffer : Ptr)
+    (N NC K : Nat) (nphase nblock : BitVec 64) (extend : Bool) (sh : NTTShape hp self dst src buffer N NC K extend) :
+    NTT_INTT.Safe fuel hp self dst src (BridgeNtt.bv N) (BridgeNtt.bv NC) buffer nphase nblock extend :=
+  INTT_safe fuel hf hp self dst src buffer N NC K nphase nblock extend sh
+
+/-- no hypothesis about the object: the generated constructor on any heap, then the generated `NTT` of a size up to
+    `maxDomainSize` on caller buffers of the documented extents (`CallerShape`) -/
+theorem C18_generated_inbounds_construct_and_transform (fuel : Nat) (hf : 64 ≤ fuel) (hp hp' : Heap) (hpos : 0 < hp.size)
+    (self' : NTT_Goldilocks) (maxDomainSize : BitVec 64) (nThreads : BitVec 32) (extension : Nat) (hm0 : maxDomainSize ≠ 0#64)
+    (hctor : NTT_ctor fuel hp NTT_Goldilocks.init maxDomainSize nThreads (extension : Int) = some (hp', self'))
+    (dst src buffer : Ptr) (N NC K : Nat) (nphase nblock : BitVec 64) (inverse : Bool)
+    (hKm : K ≤ Model.Ntt.log2 maxDomainSize.toNat) (sh : CallerShape hp (extension : Int) dst src buffer N NC K) :
+    NTT_NTT.Safe fuel hp' self' dst src (BridgeNtt.bv N) (BridgeNtt.bv NC) buffer nphase nblock inverse false :=
+  construct_transform_safe fuel hf hp hp' hpos self' maxDomainSize nThreads extension hm0 hctor dst src buffer N NC K nphase
+    nblock inverse hKm sh
+
+/-- the destructor of an object that owns distinct live blocks releases only starts of live blocks -/
+theorem C18_generated_inbounds_dtor (hp : Heap) (self : NTT_Goldilocks) (h : OwnsLive hp self) : NTT_dtor.Safe hp self :=
+  dtor_safe hp self h
+
+instance (h : Heap) (p : Ptr) (i : Nat) : Decidable (Heap.InB h p i) := by unfold Heap.InB; infer_instance
+
+/-- the predicate sees an overrun that the computed values hide: in a block of 4 words, the butterfly of the rows at
+    offsets 0 and 2 is in bounds for column 1 and NOT for column 2 (the model's read of `a[2 + 2]` silently gives 0) -/
+example : NTT_NTT_iters_loop1.Safe ⟨1, 0⟩ 0#64 2#64 1#64 1 ⟨#[#[], Array.replicate 4 0#64]⟩ ∧
+    ¬ NTT_NTT_iters_loop1.Safe ⟨1, 0⟩ 0#64 2#64 1#64 2 ⟨#[#[], Array.replicate 4 0#64]⟩ := by
+  unfold NTT_NTT_iters_loop1.Safe
+  constructor
+  · decide
+  · intro h
+    exact absurd h.2.1 (by decide)
+
+end generated
 
 end GoldilocksVerif.C18
